@@ -23,7 +23,7 @@ def projects(rnd, n):
     in several files; labels sharing an address; anonymous scopes inside imported files"""
     out = []
     for i in range(n):
-        kind = i % 8
+        kind = i % 9
         files = {}
         if kind == 0:      # the same undefined name used several times, in several files
             files["main.asm"] = '.import * as ma from "a.asm"\n.import * as mb from "b.asm"\nlda nosuch\nsta nosuch\n{ ldx nosuch }\njmp other\n'
@@ -43,6 +43,12 @@ def projects(rnd, n):
             files["main.asm"] = '.import * from "c1.asm"\n.import * from "c2.asm"\nnop\n'
             files["c1.asm"] = "xa: nop\nxb: nop\nxc: nop\n"
             files["c2.asm"] = "xa: rts\nxb: rts\nxc: rts\n"
+        elif kind == 8:    # source files that share their name in different directories (and with the entry file): which listing gets which name
+            files["main.asm"] = 'lda #1\n.import * as lu from "lib/util.asm"\n.import * as gu from "gfx/util.asm"\n.import * as su from "snd/util.asm"\n.import * as lm from "lib/main.asm"\nrts\n'
+            files["lib/util.asm"] = "lu1: lda #%d\nrts\n" % (i % 200)
+            files["gfx/util.asm"] = "gu1: ldx #2\nrts\n"
+            files["snd/util.asm"] = "su1: ldy #3\nrts\n"
+            files["lib/main.asm"] = "lm1: nop\nrts\n"
         elif kind == 5:    # several different undefined names and bad config keys
             files["main.asm"] = '.define segment { name = "s" start = $1000 bogus = 1 other = 2 third = 3 }\nlda u1\nlda u2\nlda u3\nlda u1\n'
         else:              # generated programs (valid or not), with listing and symbols
@@ -91,6 +97,7 @@ def main(tier):
         os.makedirs(d)
         open(os.path.join(d, "mos.toml"), "w").write('[build]\nentry = "main.asm"\nlisting = true\nsymbols = ["vice"]\n')
         for fn, t in files.items():
+            os.makedirs(os.path.dirname(os.path.join(d, fn)), exist_ok=True)
             open(os.path.join(d, fn), "w").write(t)
         dirs.append(d)
 
@@ -105,7 +112,7 @@ def main(tier):
     rep.cov["evaluations"] = nproj * nruns
     rep.cov["distinct_nontrivial"] = len({tuple(sorted(p.items())) for p in projs})
     rep.cov["rule"] = ("%d projects (repeated undefined names across files, parse errors in several imported files, several missing imports, import-* conflicts, bad config keys, "
-                       "labels sharing an address, anonymous scopes in imported files, generated valid/invalid programs) each built %d times by fresh `mos build` processes with listing "
+                       "labels sharing an address, anonymous scopes in imported files, files sharing their name in different directories, generated valid/invalid programs) each built %d times by fresh `mos build` processes with listing "
                        "and VICE symbols on; observation = exit status, stdout, sha256 of every file in target/; distinct = distinct projects" % (nproj, nruns))
     rep.cov["builds_ok"] = sum(1 for rs in allruns if rs[0]["exit"] == 0)
     rep.sample({"project": projs[0], "first_run": allruns[0][0]})
